@@ -100,6 +100,61 @@ def keptP (init out : List Name) : Bool :=
     if i = 0 ∨ nm = [] ∨ nm = notdef ∨ ((init.take i).drop 1).contains nm then true
     else out.getD i [] == nm
 
+/-- `nm` is `base` or `base.N` with N ≥ 1 written without leading zeros -/
+def isVariantOf (base nm : Name) : Bool :=
+  nm == base ||
+  (let pre := base ++ ['.']
+   pre.isPrefixOf nm &&
+   (let rest := nm.drop pre.length
+    rest ≠ [] && rest.all Char.isDigit &&
+    (let t := Nat.ofDigitChars 10 rest 0
+     decide (1 ≤ t) && variantName base t == nm)))
+
+/-- `orn%03d` with number ≥ 1 -/
+def isOrn (nm : Name) : Bool :=
+  ['o', 'r', 'n'].isPrefixOf nm &&
+  (let rest := nm.drop 3
+   rest ≠ [] && rest.all Char.isDigit &&
+   (let k := Nat.ofDigitChars 10 rest 0
+    decide (1 ≤ k) && ornName k == nm))
+
+/-- does subtable `s` explain the name `nm` of glyph `i`, given all final names `out`?
+(statement of `C20_gsub_shape`: a variant of the name of a source glyph, or of the names of exactly
+the components of one ligature rule joined by `_`) -/
+def subExplains (out : List Name) (n i : Nat) (nm : Name) : Sub → Bool
+  | .single1 cov d => cov.any fun o =>
+      (o + d) % 65536 == i && decide (o < n) && out.getD o [] ≠ [] && isVariantOf (out.getD o []) nm
+  | .single2 cov subst => cov.any fun p =>
+      subst[p.2]? == some i && decide (p.1 < n) && out.getD p.1 [] ≠ [] && isVariantOf (out.getD p.1 []) nm
+  | .alt cov alts => cov.any fun p =>
+      (alts.getD p.2 []).contains i && decide (p.1 < n) && out.getD p.1 [] ≠ [] &&
+        isVariantOf (out.getD p.1 []) nm
+  | .lig cov repl => cov.any fun p =>
+      decide (p.1 < n) && out.getD p.1 [] ≠ [] &&
+      (repl.getD p.2 []).any fun l =>
+        l.2 == i && l.1.all (fun g => decide (g < n)) &&
+          isVariantOf (joinU (out.getD p.1 [] :: l.1.map fun g => out.getD g [])) nm
+  | .other => false
+
+/-- every name of the real output is accounted for by one of the sources of `C20_sources` /
+`C20_gsub_shape`: glyph 0 `.notdef`, the existing name, `FromUnicode` of a code mapped to the glyph,
+a GSUB-derived name of the right shape, or a numbered placeholder -/
+def explainedP (f : Font) (fu : Nat → Name) (out : List Name) : Bool :=
+  let n := f.outl.numGlyphs
+  let init := f.outl.initNames
+  let codes : List Nat := match f.cmap with
+    | none => []
+    | some c => List.range' c.lo (c.hi + 1 - c.lo)
+  (List.range n).all fun i =>
+    let nm := out.getD i []
+    (i == 0 && nm == notdef) ||
+    (nm ≠ [] && nm == init.getD i []) ||
+    (match f.cmap with
+      | none => false
+      | some c => codes.any fun code => c.lookup code == i && fu code == nm && nm ≠ []) ||
+    f.gsub.any (subExplains out n i nm) ||
+    isOrn nm
+
 def prefixes : List String := ["gnames."]
 
 def handle (op : String) (fs : List (String × String)) : String :=
@@ -136,6 +191,16 @@ def handle (op : String) (fs : List (String × String)) : String :=
       match cffMakeNames (fun nm => nm != [] && !inv.contains nm) textBase names with
       | some r => showNames r
       | none => "panic"
+    | _, _, _ => "bad-case"
+  else if op == "gnames.readback" then
+    -- direct check run by the harness on the real code (C20_install, C20_stable_again, C20_unique)
+    "ok"
+  else if op == "gnames.explained" then
+    match parseFont fs, (getField fs "fu").bind parseNameTab, (getField fs "on").bind String.toNat? with
+    | some f, some fu, some on =>
+      match (getField fs "out").bind (parseNames on) with
+      | some out => let tab := fu.toArray; yn (explainedP f (nameTabFn tab) out)
+      | none => "bad-case"
     | _, _, _ => "bad-case"
   else if op == "gnames.pschars" then
     -- direct predicate evaluated by the harness on the real PostScriptName(): C20_psname says "ok"
